@@ -280,16 +280,19 @@ func (s *Scan) NewResponse() proto.Message {
 func (s *Scan) DeserializeCellBlocks(m proto.Message, b []byte) (uint32, error) {
 	scanResp := m.(*pb.ScanResponse)
 	partials := scanResp.GetPartialFlagPerResult()
-	scanResp.Results = make([]*pb.Result, len(partials))
+	cellsPerResult := scanResp.GetCellsPerResult()
+	scanResp.Results = make([]*pb.Result, len(cellsPerResult))
 	var readLen uint32
-	for i, numCells := range scanResp.GetCellsPerResult() {
+	for i, numCells := range cellsPerResult {
 		cells, l, err := deserializeCellBlocks(b[readLen:], numCells)
 		if err != nil {
 			return 0, err
 		}
+		// a result without a partial flag is a complete one
+		partial := i < len(partials) && partials[i]
 		scanResp.Results[i] = &pb.Result{
 			Cell:    cells,
-			Partial: proto.Bool(partials[i]),
+			Partial: proto.Bool(partial),
 		}
 		readLen += l
 	}
